@@ -31,7 +31,11 @@ type Ctx struct {
 	sig      []string // extra signature components (schedule / shape class)
 	finished bool
 	simTimeS int64 // simulated seconds covered by this run
+	cleanups []func()
 }
+
+// Cleanup registers fn to run when the run ends (scratch files).
+func (c *Ctx) Cleanup(fn func()) { c.cleanups = append(c.cleanups, fn) }
 
 // ActiveProp returns the property id whose oracle the process evaluates.
 func ActiveProp() string {
@@ -197,6 +201,9 @@ func (c *Ctx) Finish() {
 		return
 	}
 	c.finished = true
+	for i := len(c.cleanups) - 1; i >= 0; i-- {
+		c.cleanups[i]()
+	}
 	G.endRun(c)
 }
 
